@@ -281,7 +281,7 @@ def items(tier, seed):
     kppi.append((4, True, 1, 2, 1))
     if tier == 'thorough':
         for n in (5, 6):
-            kmu += [(n, True, 1, 1, False, ()), (n, False, 1, 1, False, (0, 2)), (n, True, 1, 1, True, (0, 2, 4))]
+            kmu += [(n, True, 1, 1, False, ()), (n, False, 1, 1, False, (0, 2)), (n, True, 1, 1, n == 5, (0, 2, 4))]
             kppi += [(n, True, 1, 1, 1), (n, False, 1, 1, 2), (n, True, 1, 2, 1)]
         kmu += [(3, True, 1, 2, True, (0, 2)), (4, True, 1, 2, False, (0, 2, 4)), (4, True, 2, 1, False, (0, 2)), (3, True, 3, 1, False, ()),
                 (4, False, 2, 1, False, ()), (3, True, 1, 3, False, ()), (2, True, 3, 2, True, (0, 2, 4))]
